@@ -22,6 +22,20 @@ Proof.
   apply att_rfc822; [exact Hkf|]. apply enc_nstring_some, enc_string_l. constructor; assumption.
 Qed.
 
+(* C08: the same for a body section -- BODY[section]<origin> {n} CRLF content: the commonest carrier of message data *)
+Lemma body_section_literal_opaque n wn k kb sec wsec idx widx ds content sp rest :
+  enc_number 32 n wn -> kw " FETCH " k -> kw "BODY" kb -> enc_section sec wsec -> enc_origin idx widx -> enc_spaces sp ->
+  ds <> [] -> forallb rfc_DIGIT ds = true -> dec ds = nlen content -> dec ds < 2 ^ 32 -> forallb rfc_CHAR8 content = true ->
+  parse ((bs "* " ++ wn ++ k ++ [40] ++ (kb ++ wsec ++ widx ++ SPb ++ ([123] ++ ds ++ [125; 13; 10] ++ content)) ++ [] ++ [41] ++ sp ++ [13; 10]) ++ rest)
+  = ROk rest (VCon "Response::Fetch" [VNum n; VList [VRec "AttributeValue::BodySection"
+                 [("section"%string, sec); ("index"%string, idx); ("data"%string, VSome (VBytes content))]]])
+        (nlen (bs "* " ++ wn ++ k ++ [40] ++ (kb ++ wsec ++ widx ++ SPb ++ ([123] ++ ds ++ [125; 13; 10] ++ content)) ++ [] ++ [41] ++ sp ++ [13; 10])).
+Proof.
+  intros Hn Hk Hkb Hsec Hidx Hsp Hne Hd Hlen Hlt H8. apply fetch_roundtrip.
+  apply enc_fetch_intro; try assumption; [|constructor].
+  apply att_body_section; try assumption. apply enc_nstring_some, enc_string_l. constructor; assumption.
+Qed.
+
 (* the canonical literal header of a content *)
 Lemma canonical_literal content : nlen content < 2 ^ 32 -> forallb rfc_CHAR8 content = true ->
   enc_literal content ([123] ++ to_dec (nlen content) ++ [125; 13; 10] ++ content).
